@@ -4,6 +4,18 @@ import json, os
 V = os.path.dirname(os.path.dirname(os.path.abspath(__file__)))
 
 CHECKS = {
+ "C05": ("fault_enumeration", "5/C05",
+         "Real executions under the ptrace supervisor with one I/O policy each: lengths of copy_file_range/read/write/pread64/pwrite64 reduced at entry so the kernel performs genuinely short transfers (1 byte, len-1, half, random, caps; every call or only the k-th), copy_file_range refused (ENOSYS/EXDEV/EPERM, from call 1 or k), FICLONE and FIEMAP answered unsupported, read EINTR; plus the portable libfs back end through a libfs-only probe. Oracle: exit 0 implies byte-exact destination.",
+         "Short returns are sampled (extremes and random interior points), not enumerated at every call; the portable back end is reachable only at the libfs API (cargo feature unification).",
+         "runtime monitoring: system-call length clamping / refusal + byte-equality oracle"),
+ "C06": ("exploration", "5/C06",
+         "The same invocation is executed under both drivers, workers 1..64 and supervisor schedules (pct, role priorities, lifo, jitter) that hold threads at system-call boundaries; oracle: equal exit class within a case and identical destination snapshots among exit-0 runs, plus two trace monitors (no creation under the destination fails with ENOENT; no metadata call on a destination inode begins before every data write on it returned). Evidence counts distinct interleaving signatures.",
+         "Interleavings are sampled, not enumerated; scheduling points are system-call entries only.",
+         "runtime monitoring: schedule perturbation + differential snapshot oracle + offline trace monitors"),
+ "C07": ("fault_enumeration", "5/C07",
+         "Liveness restated as bounded progress: every supervised execution (termination-specific inputs, single faults at every site of baseline traces, library API runs with three updaters) must reach exit without the supervisor's logical deadlock detector (all live threads in untimed blocking calls, no event/CPU for 3 s) or step/CPU livelock budgets firing; for the API the update channel must be disconnected after copy() returned. Wall-clock watchdog is inconclusive.",
+         "No finite run decides 'always terminates'; only absence of deadlock/livelock states on the executions produced is claimed.",
+         "runtime monitoring: termination watch (deadlock/livelock detectors) under fault injection and schedule perturbation"),
  "C02": ("exploration", "5/C02",
          "Whole-sandbox snapshot before/after each real execution compared with an independent model of cp's mapping rule: every mapped entry present with the same kind, link text and bytes; every unmapped non-source entry byte-for-byte unchanged; nothing new outside mapped paths. Held = no exit-0 run observed deviated.",
          "Model covers the shapes listed in the evidence rule; inputs the statement leaves undefined (same-basename sources, '.'/'..' sources, kind-changing overwrites) are not generated.",
